@@ -34,6 +34,7 @@ RULE += (
 RULE += (
          'Tainted and plain threads; expression-typed raise failing in '
          'some threads. ')
+RULE += ('Round 8: repeated structured-text format; nameless mutable expression values changed by the template. ')
 ASSUMPTIONS = [
     'preemption happens at Python line granularity inside the package; '
     'races inside one line or inside C code of dependencies are not explored',
